@@ -1,5 +1,7 @@
 import Rivaas.Spec.Chain
 import Rivaas.Spec.Compose
+import Rivaas.Lemmas.ChainSim
+import Rivaas.Model.ComposeAsIs
 /-
 C02 — Handler chains run in composition order, once per position, and stop on abort.
 
@@ -357,5 +359,98 @@ example :
     let progs : List Prog := [{ acts := [.next, .write] }, { acts := [.call [.next, .ret], .next] }, { acts := [] }]
     (run {} progs 30 (start {} progs)).stack = [] ∧
     (run {} progs 30 (start {} progs)).trace = [.enter 0, .enter 1, .enter 2, .exit 2, .exit 1, .exit 0] := by decide
+
+/-! ### the machine computes exactly what the reference interpreter says -/
+
+theorem lemma_start_mk (cfg : Cfg) (progs : List Prog) :
+    start cfg progs = loopHead cfg progs (mk {} (0 : Nat) []) := rfl
+
+/-- **Machine trace = reference interpreter** (the statement's quantifier, as a theorem about the
+    model). For every chain and every handler program over the whole alphabet — including panics,
+    with the repaired recovery — the machine halts, and its final trace, abort/cancel flags,
+    status, body and escaped panic are exactly those of the suffix-recursive reference
+    interpreter `Rivaas.Chain.ref`, which has no index, no stack and no fuel. -/
+theorem run_eq_ref (cfg : Cfg) (hab : cfg.abortOnRecover = true) (progs : List Prog) :
+    ∃ n, (run cfg progs n (start cfg progs)).stack = [] ∧
+         proj (run cfg progs n (start cfg progs)) = (ref cfg.check progs).1 ∧
+         (run cfg progs n (start cfg progs)).escaped = (ref cfg.check progs).2 := by
+  have h := chainSim cfg progs hab progs 0 (by simp) {} []
+  rw [lemma_start_mk]
+  unfold ref
+  revert h
+  rcases refChain cfg.check 0 progs {} with ⟨r', _ | v⟩
+  · rintro ⟨n, i', h1, _, _⟩
+    exact ⟨n, by rw [h1]; rfl, by rw [h1]; rfl, by rw [h1]; rfl⟩
+  · rintro ⟨n, i', h1, _⟩
+    exact ⟨n, by rw [h1]; rfl, by rw [h1]; rfl, by rw [h1]; rfl⟩
+
+/-- every request terminates: the machine reaches the empty stack -/
+theorem halts (cfg : Cfg) (hab : cfg.abortOnRecover = true) (progs : List Prog) :
+    ∃ n, (run cfg progs n (start cfg progs)).stack = [] := by
+  obtain ⟨n, h, _⟩ := run_eq_ref cfg hab progs
+  exact ⟨n, h⟩
+
+/-- what the driver evaluates (`exec` = `run` with the fuel bound `fuel progs`): whenever it ends
+    with an empty stack — which the driver checks on every case — its result *is* the reference
+    interpreter's, so fuel can never make a case agree for the wrong reason. -/
+theorem exec_eq_ref (cfg : Cfg) (hab : cfg.abortOnRecover = true) (progs : List Prog)
+    (hfin : (exec cfg progs).stack = []) :
+    proj (exec cfg progs) = (ref cfg.check progs).1 ∧ (exec cfg progs).escaped = (ref cfg.check progs).2 := by
+  obtain ⟨n, h1, h2, h3⟩ := run_eq_ref cfg hab progs
+  have heq : exec cfg progs = run cfg progs n (start cfg progs) := by
+    unfold exec at *
+    rcases Nat.le_total n (fuel progs) with hle | hle
+    · obtain ⟨d, hd⟩ := Nat.exists_eq_add_of_le hle
+      rw [hd, run_add, run_halted cfg progs d _ h1]
+    · obtain ⟨d, hd⟩ := Nat.exists_eq_add_of_le hle
+      rw [hd, run_add, run_halted cfg progs d _ hfin]
+  rw [heq]
+  exact ⟨h2, h3⟩
+
+/-- non-vacuity of `exec_eq_ref`'s hypothesis, on a chain that exercises Next twice, nested Next,
+    Abort after Next and a panic caught by an inner recovering handler -/
+example :
+    let progs : List Prog := [{ acts := [.next, .next, .abort] }, { recovers := true, acts := [.call [.next, .ret], .write] },
+                             { acts := [.write, .panic 1] }, { acts := [.write] }]
+    (exec {} progs).stack = [] ∧
+    (exec {} progs).trace = [.enter 0, .enter 1, .enter 2, .unwound 2, .exit 1, .exit 0] ∧
+    (exec {} progs).body = [.h 2, .rec500] := by decide
+
+/-! ### composition: the recorded and the repaired defect -/
+
+open Rivaas.Compose in
+/-- K02 as shipped (`Rivaas.ComposeAsIs`: `app.Group` kept the caller's slice): two sibling groups
+    built from one slice `mws[:1]` with capacity 2, `Use(2)` on the first, `Use(3)` on the second —
+    the first group's route runs `[1, 3, 4]`: the *sibling's* middleware 3 instead of its own 2.
+    The repaired model (`compose`) gives `[1, 2, 4]`, and only that is admitted by the oracle.
+    Replayed on the real code by corpus/C02/witnesses.case. -/
+theorem asis_sibling_alias :
+    let script : List Op := [.agroup 1 [1] 1 2, .agroup 2 [1] 1 2, .aguse 0 [2], .aguse 1 [3],
+                             .aroute (.agroup 0) 3 [] 4 [], .aroute (.agroup 1) 4 [] 5 []]
+    let tg : Target := { mounts := [], route := 4 }
+    ComposeAsIs.composeAsIs script [1, 3] = some [1, 3, 4] ∧
+    compose script none [1, 3] = some [1, 2, 4] ∧
+    chainOK script tg [1, 3, 4] = false ∧ chainOK script tg [1, 2, 4] = true := by decide
+
+open Rivaas.Compose in
+/-- K02b (open, recorded): `sub.Warmup()` before `Mount` — the as-is model reads the sub-router's
+    tree nodes, which already carry its middleware 2, and prepends it again: `[1, 2, 2, 3]`. The
+    oracle rejects that chain, admits `[1, 2, 3]`, and the classifier `dK02b` fires. -/
+theorem warmed_mount_doubles_witness :
+    let script : List Op := [.newRouter, .use 0 [1], .use 1 [2], .route (.router 1) 1 [3], .warmup 1,
+                             .mount 0 1 2 false []]
+    let tg : Target := { mounts := [5], route := 3 }
+    compose script none [2, 1] = some [1, 2, 2, 3] ∧
+    chainOK script tg [1, 2, 2, 3] = false ∧ chainOK script tg [1, 2, 3] = true ∧ dK02b script tg = true := by decide
+
+open Rivaas.Compose in
+/-- the same mount without the early warm-up composes in the documented order, with the
+    test-pinned second run of the parent's middleware under `InheritMiddleware` -/
+theorem mount_order_example :
+    let script : List Op := [.newRouter, .use 0 [1], .use 1 [2], .route (.router 1) 1 [3],
+                             .mount 0 1 2 true [4]]
+    let tg : Target := { mounts := [4], route := 3 }
+    compose script none [2, 1] = some [1, 1, 2, 4, 3] ∧ chainOK script tg [1, 1, 2, 4, 3] = true ∧
+    dK02b script tg = false := by decide
 
 end Rivaas.C02
